@@ -64,7 +64,7 @@ func genSetValue(t *rapid.T, typ form.FieldType) (any, string) {
 	case 4:
 		var js []jid.JID
 		var ds []string
-		for n := rapid.IntRange(0, 3).Draw(t, "njids"); n > 0; n-- {
+		for n := listLen(t, "njids", 3); n > 0; n-- {
 			j := genJIDz().Draw(t, "jid")
 			js = append(js, j)
 			ds = append(ds, strconv.Quote(j.String()))
@@ -72,7 +72,7 @@ func genSetValue(t *rapid.T, typ form.FieldType) (any, string) {
 		return js, "jids[" + strings.Join(ds, ",") + "]"
 	case 5:
 		var ss []string
-		for n := rapid.IntRange(0, 3).Draw(t, "nstrings"); n > 0; n-- {
+		for n := listLen(t, "nstrings", 3); n > 0; n-- {
 			ss = append(ss, genText().Draw(t, "item"))
 		}
 		return ss, fmt.Sprintf("%q", ss)
